@@ -1183,7 +1183,10 @@ class Interp:
     def ev_BoolLit(self, e):
         return e.value
     def ev_Comma(self, e):
-        self.ev(e.l)
+        l = self.ev(e.l)
+        if isinstance(l, CommaInit):
+            l.push(self.ev(e.r))
+            return l
         return self.ev(e.r)
 
     def ev_Id(self, e):
@@ -1305,8 +1308,11 @@ class Interp:
                     self.sym.effects.append(('out:' + l.what, r, self.cur_line))
                 return l
             if isinstance(l, Mat):
-                # comma initialiser: M << a, b, c  (handled in ev_Comma context)
-                raise Unsupported('Eigen comma initialiser')
+                # Eigen comma initialiser: M << a, b, c   (row-major fill)
+                ci = CommaInit(l)
+                ci.push(self.ev(e.r))
+                self.fire('eigen-comma-initialiser')
+                return ci
             r = self.ev(e.r)
             return l << r
         l = self.ev(e.l)
@@ -1504,7 +1510,7 @@ class Interp:
             return BoundMethod(o, e.name)
         if isinstance(o, tuple) and e.name in ('first', 'second'):
             return o[0 if e.name == 'first' else 1]
-        if isinstance(o, (Mat, Cx, str, Opaque, list, tuple, Stream)):
+        if isinstance(o, (Mat, Cx, str, Opaque, list, tuple, Stream, CommaInit)):
             return BoundMethod(o, e.name)
         raise Unsupported('member %s of %r' % (e.name, o))
 
@@ -1659,6 +1665,10 @@ class Interp:
                 if name == 'what':
                     return o.f.get('msg', '')
             raise Unsupported('method %s::%s not found' % (o.cls, name))
+        if isinstance(o, CommaInit):
+            if name == 'finished':
+                return o.finish()
+            raise Unsupported('CommaInit.' + name)
         if isinstance(o, Mat):
             return self.mat_method(o, name, args, targs)
         if isinstance(o, Cx):
@@ -2017,6 +2027,21 @@ class Interp:
         if s in ('std::ostringstream', 'std::stringstream'):
             return Stream()
         return NotImplemented
+
+class CommaInit:
+    def __init__(self, m):
+        self.m, self.k = m, 0
+    def push(self, v):
+        vals = v.elems() if isinstance(v, Mat) else [v]
+        for x in vals:
+            if self.k >= self.m.r * self.m.c:
+                raise EvalError('too many coefficients in comma initialiser')
+            self.m.set(self.k // self.m.c, self.k % self.m.c, x)
+            self.k += 1
+    def finish(self):
+        if self.k != self.m.r * self.m.c:
+            raise EvalError('too few coefficients in comma initialiser')
+        return self.m
 
 class FieldCell:
     """reference to an object field"""
